@@ -163,4 +163,16 @@ example : (step L0 (.transferFrom v0 v1 v2 30)).2 = .ok ∧
 example : (step init (.mint v0 maxInt64)).2 = .ok ∧
     (step (step init (.mint v0 maxInt64)).1 (.mint v1 1)).2 = .err .mintOverflow := by decide
 
+/-- Non-vacuity of the hypotheses `Inv L`, `op.wf`: `L0` is a non-trivial ledger satisfying
+the invariant (one account, one allowance), and the amounts used here are int64. -/
+example : Inv L0 ∧ L0.totalSupply = 100 ∧ balanceOf L0 v0 = 100 ∧ allowance L0 v0 v1 = 50 ∧
+    (Op.transferFrom v0 v1 v2 30).wf ∧ (Op.mint v0 maxInt64).wf :=
+  ⟨reachable_inv _ (by decide), by decide, by decide, by decide, by decide, by decide⟩
+
+/-- Non-vacuity of `failing_changes_nothing` / `transfer_conserves`: on `L0` a burn above the
+balance fails, and a transfer of the whole balance succeeds (the emptied account is removed). -/
+example : (step L0 (.burn v0 101)).2 = .err .insufficientBalance ∧
+    (step L0 (.transfer v0 v2 100)).2 = .ok ∧
+    knownAccounts (step L0 (.transfer v0 v2 100)).1 = 1 ∧
+    balanceOf (step L0 (.transfer v0 v2 100)).1 v2 = 100 := by decide
 end GnoVerif.C51
